@@ -148,7 +148,7 @@ def needs_tz_crosscheck(rep, F, rp_table, rule='R-TABLE'):
 # ---------------------------------------------------------------- classification tables (sign / FpCategory)
 def outcome_class(out):
     """structural class of a path outcome"""
-    out = TB.deref(out)
+    out = TB.deref(TB.reduce_try(TB.deref(out)))
     if out[0] == 'adt' and out[2] == 'None':
         return 'None'
     if out[0] == 'adt' and out[2] == 'Some':
